@@ -2,8 +2,11 @@
 # usage: tools/archive_seed.py <Cxx> <n> <status: caught|missed|rejected> "<needs>" "<ran/result>"
 import sys, os, shutil, json, glob
 pid, n, status, needs, ran = sys.argv[1:6]
-src = f"/tmp/seed-{pid}-out"
-dst = f"/verif/seeded/{pid}-{n}"
+import os as _os
+pfx = _os.environ.get("SEEDPFX", "seed")
+tag = _os.environ.get("SEEDROUND", "")
+src = f"/tmp/{pfx}-{pid}-out"
+dst = f"/verif/seeded/{pid}-{tag}{n}"
 os.makedirs(dst, exist_ok=True)
 shutil.copyfile(f"{src}/patch{n}.diff", f"{dst}/patch.diff")
 for f in glob.glob(f"{src}/demo{n}*"):
